@@ -21,11 +21,18 @@ type Profile struct {
 	// lists (scenarios that make the interesting region reachable); the
 	// generated operations follow. The whole list still shrinks as one value.
 	Preambles [][]Op
+	// PreambleOneIn: a preamble is used in one of this many cases (default 2)
+	PreambleOneIn int
 }
 
 var keyAlphabet = []byte{0x00, 0x01, 0x02, 'a', 0xff}
 
 var idPool = [][]byte{{}, {0x00}, {0x01}, {'a'}, {'a', 0x00}, {'a', 0x01}, {0xff}, {0x00, 0x00}}
+
+// deepIDs: a family of nested primary keys (a key that is a strict prefix of
+// others which continue with the same byte into a deeper inner node) - deletes
+// of the short key merge radix-tree nodes, later writes go below the merged node.
+var deepIDs = [][]byte{{'a', 0x00}, {'a', 0x00, 0x01}, {'a', 0x00, 0x01, 0x02}, {'a', 0x00, 0x01, 0xff}, {'a', 0x00, 0x01, 0x00}, {'a', 0x00, 0x02}}
 
 func genID(few bool) *rapid.Generator[[]byte] {
 	if few {
@@ -34,6 +41,7 @@ func genID(few bool) *rapid.Generator[[]byte] {
 	return rapid.OneOf(
 		rapid.SampledFrom(idPool), rapid.SampledFrom(idPool),
 		rapid.SliceOfN(rapid.SampledFrom(keyAlphabet), 0, 3),
+		rapid.SampledFrom(deepIDs),
 	)
 }
 
@@ -80,7 +88,7 @@ func genQuery() *rapid.Generator[*Query] {
 				q.ID = genID(false).Draw(t, "id")
 			}
 		default:
-			q.Key = genKeyN(3).Draw(t, "key")
+			q.Key = rapid.OneOf(genKeyN(3), genKeyN(3), rapid.SampledFrom(deepIDs)).Draw(t, "key")
 		}
 		return q
 	})
@@ -173,7 +181,11 @@ func genCase(t *rapid.T, p Profile) Case {
 		mm = 25
 	}
 	c.Ops = vk.Ops(t, genOp(p, n), mm, "ops")
-	if len(p.Preambles) > 0 && rapid.Bool().Draw(t, "preamble") {
+	oneIn := p.PreambleOneIn
+	if oneIn == 0 {
+		oneIn = 2
+	}
+	if len(p.Preambles) > 0 && rapid.IntRange(0, oneIn-1).Draw(t, "preamble") == 0 {
 		pre := p.Preambles[rapid.IntRange(0, len(p.Preambles)-1).Draw(t, "whichPreamble")]
 		c.Ops = append(append([]Op{}, pre...), c.Ops...)
 	}
